@@ -1,3 +1,4 @@
+import Thanos.Model.Uvarint
 /-
   C11 — pkg/block/indexheader/binary_reader.go
     BinaryReader.init (sampling of the postings offset table), postingsOffset (multi-value
@@ -228,5 +229,33 @@ def lookupSymbols (table : Nat → Option (List Nat)) (names : List (Nat × List
   | o :: os, c =>
     let (r, c') := lookupSymbol table names size shift o c
     r :: lookupSymbols table names size shift os c'
+
+/-! ### the bytes of a table entry: how `postingsOffset` gets past key count and label name -/
+
+open Thanos.Uvarint in
+/-- one entry of the v2 postings offset table: key count 2, label name, label value, offset -/
+def entryBytes (name value : List Nat) (off : Nat) : List Nat :=
+  uvarint 2 ++ (uvarint name.length ++ name) ++ ((uvarint value.length ++ value) ++ uvarint off)
+
+open Thanos.Uvarint in
+/-- Decbuf.Uvarint on the unread bytes (well-formed input; errors are the business of `lookup`) -/
+def decUvarint (d : List Nat) : Nat × List Nat := ((unuvarint d).1, d.drop (unuvarint d).2.toNat)
+
+/-- Decbuf.UvarintBytes -/
+def decUvarintBytes (d : List Nat) : List Nat × List Nat :=
+  (((decUvarint d).2).take (decUvarint d).1, ((decUvarint d).2).drop (decUvarint d).1)
+
+/-- `skipNAndName(&d, &buf)`: with `buf = 0` decode key count and label name and remember how many
+    bytes that took (`*buf = d.Len(); …; *buf -= d.Len()`), otherwise skip `buf` bytes.
+    Returns the unread bytes and the new `buf`. -/
+def skipNAndName (d : List Nat) (buf : Nat) : List Nat × Nat :=
+  if buf = 0 then
+    let d2 := (decUvarintBytes (decUvarint d).2).2
+    (d2, d.length - d2.length)
+  else (d.drop buf, buf)
+
+open Thanos.Uvarint in
+/-- the number of bytes key count and label name take in every entry of a label name -/
+def nameSkipLen (name : List Nat) : Nat := 1 + (uvarint name.length).length + name.length
 
 end Thanos.IndexHeader
